@@ -17,7 +17,7 @@ From RN Require Import Model.ConstraintsDef Model.Constraints Model.Edits Model.
 From RN Require Import Gen.GenStyles.
 From RN Require Import Model.Coercion.
 From RN Require Import Proofs.StandaloneP Proofs.ConstraintsP Proofs.HunkTailP1 Proofs.HunkTailP Proofs.CoercionP Proofs.HunkTailP2.
-From RN Require Import Gen.GenAcronyms Proofs.ScanFileP.
+From RN Require Import Gen.GenAcronyms Proofs.ScanFileP Proofs.ScanFileP2.
 Close Scope N_scope.   (* ConstraintsP opens it; the statements below count in nat *)
 
 (* an occurrence in an enabled visible style is the single match, passes the boundary test, and is mapped
@@ -228,12 +228,14 @@ Theorem C06_scan_file_standalone :
   apply_edits_rev c [edit_of_thunk h] = Ok (dl ++ new ++ dr).
 Proof. exact ScanFileP.scan_file_standalone. Qed.
 
-(* and an occurrence written in a DISABLED word style (Snake, ScreamingSnake, Camel, Pascal) is left alone by the whole
-   scanner, compound pass included: no match, no hunk.  (The eight separator-carrying styles: computed instances in
-   Proofs/ScanFileP.v, ex_disabled_other_styles, and the real scanner in lib/props/c06.py.) *)
-Theorem C06_scan_file_disabled_untouched_word :
+(* and an occurrence written in a DISABLED visible style - any of the twelve - is left alone by the whole scanner, compound
+   pass included: no match, no hunk.  For Snake / ScreamingSnake / Camel / Pascal the extractor reports the occurrence as one
+   identifier; for Kebab / ScreamingTrain / Dot (and Train when Title is off) as one identifier or its dot-split words; for
+   Title / Sentence / LowerSentence / UpperSentence (and Train when Title is on) as single words - and the compound matcher
+   returns nothing on each of them (Proofs/ScanFileP.v, ScanFileP2.v) *)
+Theorem C06_scan_file_disabled_untouched :
   forall acr defaults amb S0 S1 S sw rw styles dl dr extra,
-  wf_acr acr = true -> visible S0 = true -> visible S1 = true -> word_style S = true ->
+  wf_acr acr = true -> visible S0 = true -> visible S1 = true -> visible S = true ->
   (2 <= length sw)%nat -> rw <> [] -> all_neutral acr sw = true -> all_neutral acr rw = true ->
   all_neutral gen_acronyms sw = true ->
   ~ In S styles -> ctxs dl = true -> ctxs dr = true ->
@@ -245,10 +247,10 @@ Theorem C06_scan_file_disabled_untouched_word :
   forall resolve line_excluded o,
     generate_hunks_m acr resolve line_excluded o vm c repl
       (find_enhanced_matches c search repl (keys vm) styles extra) = [].
-Proof. exact ScanFileP.scan_file_disabled_untouched_word. Qed.
+Proof. exact ScanFileP2.scan_file_disabled_untouched. Qed.
 
 Print Assumptions C06_scan_file_standalone.
-Print Assumptions C06_scan_file_disabled_untouched_word.
+Print Assumptions C06_scan_file_disabled_untouched.
 Print Assumptions C06_visible_unambiguous.
 Print Assumptions C06_standalone_hunk.
 Print Assumptions C06_standalone_hunk_no_assumption.
